@@ -38,7 +38,7 @@ def gen_cases(tier, seed):
     rng = random.Random(171717 + seed)
     cases = []
     grids = [(1, 1), (2, 1), (1, 2), (2, 2), (3, 1), (1, 3), (3, 2), (2, 3)]
-    for k in range(24 if tier == "quick" else 3000):
+    for k in range(24 if tier == "quick" else 8000):
         cases.append({"kind": "diag", "npts": [rng.randint(5, 8), rng.randint(5, 8), rng.randint(7, 9), rng.randint(6, 9)], "nprocs": list(grids[k % len(grids)]),
                       "saveStep": rng.randint(1, 4), "dt": rng.choice([1, 2, 3]), "sched": rng.randrange(1 << 30), "seed": rng.randrange(1 << 30), "cost": 100})
     # "in every layout": all 24 orderings of a 4-D grid (not only the three shipped ones)
